@@ -5,8 +5,9 @@
    lib/Quote.v (strconv.Quote/Unquote).  The arguments lower, printable stand for unicode.ToLower and
    unicode.IsPrint; the hypotheses on them are facts of those Go tables. *)
 From Coq Require Import List NArith Bool.
-From Verif Require Import lib.Quote model.ExSyntax model.ExLexer model.ExParser model.ExPrinter
-  proofs.ExPrintProofs proofs.ExRoundtrip proofs.ExC11.
+From Verif Require Import lib.Quote model.ExSyntax model.ExLexer model.ExParser model.ExPrinter model.ExScanner
+  model.ExRefactor model.ExTemplate proofs.ExPrintProofs proofs.ExRoundtrip proofs.ExScannerProofs
+  proofs.ExRefactorProofs proofs.ExC11.
 Import ListNotations.
 Open Scope N_scope.
 
@@ -35,3 +36,38 @@ Theorem c11_reparse_tokens : forall (lower : N -> N) (printable : N -> bool) inp
   /\ parse_tokens (ptoks lower printable t) = POk (norm lower t).
 Proof. exact reparse_tokens_stmt. Qed.
 Print Assumptions c11_reparse_tokens.
+
+(* Second sentence, identity transformation that reports "unchanged" (refactor.Template then keeps the original
+   expression text): for EVERY NUL-free template — any body text, e-mail addresses, "@@", expressions with syntax
+   errors, unterminated "@(" — and every allowed-top-level list (nil included) the output IS the template: the
+   scanner with SetUnescapeBody(false) is lossless.  (inside = false only for text literals with raw byte escapes,
+   which lie outside the code-point model of strconv.Unquote.) *)
+Theorem c11_identity_rewrite_verbatim : forall (isln : N -> bool) (lower : N -> N) (printable : N -> bool) tops s,
+  isln 0 = false -> nulfree s ->
+  exists out errs inside,
+    refactor_template isln lower printable (fun _ => None) tops s = Ok (out, errs, inside)
+    /\ (inside = true -> out = s).
+Proof. exact identity_verbatim_stmt. Qed.
+Print Assumptions c11_identity_rewrite_verbatim.
+
+(* Second sentence, renaming: ContextRefRename(from, to) — modelled by rename, with is_from n = strings.EqualFold(n,
+   from) — renames exactly the context references that match, in place (refs lists the reference names in source
+   order), and changes nothing else: the tree with reference names blanked (erase) is identical — operators,
+   lookups, literals, anonymous-function argument names, Parentheses.  When nothing matches the tree is untouched and
+   the transformation reports "unchanged" (so, by the theorem above, the template text is kept verbatim). *)
+Theorem c11_rename_exact : forall (is_from : ExSyntax.text -> bool) (to : ExSyntax.text) e,
+  refs (rename is_from to e) = map (fun n => if is_from n then to else n) (refs e)
+  /\ erase (rename is_from to e) = erase e
+  /\ (existsb is_from (refs e) = false -> rename is_from to e = e /\ rename_tx is_from to e = None).
+Proof. exact rename_exact_stmt. Qed.
+Print Assumptions c11_rename_exact.
+
+(* "evaluates to the same value": PARTIAL — on the expression fragment model/ExTemplate.v evaluates (text
+   literals, null, context properties, parentheses, &) the normalised tree evaluates exactly like the original in
+   every context (context lookup is case-insensitive).  Missing: numbers, the other operators, lookups, function
+   calls — there the statement is carried by the direct oracle R1 (5 random contexts per expression). *)
+Theorem c11_eval_preserved_partial : forall (lower : N -> N) ctx e,
+  (forall c, lower (lower c) = lower c) ->
+  eval_frag lower ctx (norm lower e) = eval_frag lower ctx e.
+Proof. exact eval_preserved_stmt. Qed.
+Print Assumptions c11_eval_preserved_partial.
